@@ -178,7 +178,7 @@ def check_case(case) -> Result:
             continue
         for t, x, y in zip(ta, getattr(a, tag), getattr(b, tag)):
             x, y = e2e.to_np(x), e2e.to_np(y)
-            sc = 1.0 if tag != "energy" else 1.0 + 30.0 * n
+            sc = 1.0 if tag != "energy" else max(1.0 + 30.0 * n, float(np.max(np.abs(x))))  # an SLM mask adds |H| ~ 1e4
             err = float(np.max(np.abs(x - y))) / sc
             if not err <= tol:
                 r.fail(f"equivalent_input_changes:{tag}:{kind}:{backend}", f"t={t}: |delta|={err:.3e} > {tol:.2e}; original {np.round(x, 6).tolist() if x.size < 10 else '...'} "
